@@ -3,6 +3,7 @@
 
 mod c12_rpki;
 mod rib;
+mod wire;
 mod vals;
 
 use vcore::*;
@@ -10,6 +11,7 @@ use vcore::*;
 fn plan(property: &str) -> BatchPlan {
     match property {
         "C12" => BatchPlan { quick_runs: 40_000, thorough_runs: 6_000_000 },
+        "C03" => BatchPlan { quick_runs: 200_000, thorough_runs: 20_000_000 },
         "C06" | "C15" | "C02" => BatchPlan { quick_runs: 60_000, thorough_runs: 6_000_000 },
         _ => BatchPlan { quick_runs: 5_000, thorough_runs: 500_000 },
     }
@@ -17,7 +19,7 @@ fn plan(property: &str) -> BatchPlan {
 
 fn main() {
     let (r06, r15, r02) = (rib::RibHistories { prop: "C06" }, rib::RibHistories { prop: "C15" }, rib::RibHistories { prop: "C02" });
-    let checks: Vec<&dyn Check> = vec![&c12_rpki::RpkiHistories, &r06, &r15, &r02];
+    let checks: Vec<&dyn Check> = vec![&c12_rpki::RpkiHistories, &r06, &r15, &r02, &wire::BgpStreams, &wire::RtrStreams, &wire::BfdDatagrams];
     let args: Vec<String> = std::env::args().skip(1).collect();
     std::process::exit(main_with(&checks, &plan, &args));
 }
